@@ -33,6 +33,10 @@ type c15Tok struct {
 type c15Case struct {
 	Toks []c15Tok `json:"toks"`
 	Segs []int    `json:"segs"` // TCP segmentation of the opening
+	// an earlier connection attempt on the SAME transport object: the server sends these bytes
+	// (ending inside a telnet command) and hangs up; the opening under test follows on a new
+	// connection and must be handled as on a fresh object
+	Pre []int `json:"pre,omitempty"`
 }
 
 func genC15(r *sim.Rng) *c15Case {
@@ -55,6 +59,9 @@ func genC15(r *sim.Rng) *c15Case {
 				bi++
 			}
 		}
+	}
+	if r.Chance(1, 4) {
+		c.Pre = [][]int{{255}, {255, 251}, {255, 253}, {255, 253, 3, 255}, {104, 105, 255, 254}, {255, 252}}[r.Intn(6)]
 	}
 	total := len(renderToks(c.Toks))
 	for total > 0 {
@@ -157,6 +164,30 @@ func runC15Case(id string, c *c15Case) {
 	args.TimeoutSocket = 600 * time.Millisecond
 	ta, _ := transport.NewTelnetArgs()
 	tt, _ := transport.NewTelnetTransport(ta)
+	if len(c.Pre) > 0 {
+		cs.Kind = "reopen"
+		if ln0, err0 := net.Listen("tcp", "127.0.0.1:0"); err0 == nil {
+			go func() {
+				conn, err := ln0.Accept()
+				if err != nil {
+					return
+				}
+				pre := make([]byte, len(c.Pre))
+				for i, v := range c.Pre {
+					pre[i] = byte(v)
+				}
+				_, _ = conn.Write(pre)
+				time.Sleep(30 * time.Millisecond)
+				_ = conn.Close()
+			}()
+			a0, _ := transport.NewArgs(l, "127.0.0.1")
+			a0.Port = ln0.Addr().(*net.TCPAddr).Port
+			a0.TimeoutSocket = 300 * time.Millisecond
+			_ = tt.Open(a0)
+			_ = tt.Close()
+			_ = ln0.Close()
+		}
+	}
 	if err := tt.Open(args); err != nil {
 		cs.Obs = "open-error"
 		cs.Oracle = "telnet open failed: " + err.Error()
